@@ -6,6 +6,7 @@ import (
 
 	"verif/mc/clustermc"
 	"verif/mc/engine"
+	"verif/mc/schedrun"
 	"verif/mc/world"
 )
 
@@ -99,18 +100,35 @@ func VictimOracle() clustermc.Oracle {
 			pipedTo[d.Pod] = d.Node
 			pipedGroups[d.Pod] = d.GPUGroups
 		}
-		evictedPerJob := map[string]map[string]int{} // job -> podset -> evicted
-		for _, d := range evicts {
+		// evictions so far in this cycle, in decision order, each pod once (any action): an eviction is
+		// judged by the rule of ITS action against what is left of the job at that moment. Evictions that a
+		// later, differently protected action adds (e.g. preempt inside the queue, with no preempt
+		// min-runtime, after a reclaim took the surplus) are judged by their own rule - except that all
+		// evictions of one statement are one decision: those of the same action for the same preemptor are
+		// counted together.
+		evictedPerJob := map[string]map[string]int{} // job -> podset -> evicted so far
+		countedPod := map[string]bool{}
+		count := func(d schedrun.Decision) { // (decision of the cycle)
+			if countedPod[d.Pod] {
+				return
+			}
 			if j := podJob[d.Pod]; j != nil {
-				if evictedPerJob[j.Name] == nil {
-					evictedPerJob[j.Name] = map[string]int{}
-				}
 				if p := t.Pre.Pod(d.Pod); p != nil {
+					if evictedPerJob[j.Name] == nil {
+						evictedPerJob[j.Name] = map[string]int{}
+					}
+					countedPod[d.Pod] = true
 					evictedPerJob[j.Name][j.PodSetOf(p)]++
 				}
 			}
 		}
-		for _, d := range evicts {
+		for i, d := range evicts {
+			// this eviction and every later one of the same statement (same action, same preemptor)
+			for _, e := range evicts[i:] {
+				if e.Action == d.Action && e.Preemptor == d.Preemptor {
+					count(e)
+				}
+			}
 			if d.Action == "stalegangeviction" {
 				continue
 			}
